@@ -20,7 +20,17 @@ def main(argv):
     seed = int(os.environ.get('VERIF_SEED', '0') or 0)
     mod = importlib.import_module(f'harness.props.{pid.lower()}')
     prop = mod.PROP
-    return core.run_check(prop, tier, seed, replay)
+    try:
+        return core.run_check(prop, tier, seed, replay)
+    except Exception:
+        # fail closed: a crash of the machinery means the property is not shown to hold on this tree
+        import traceback
+        tb = traceback.format_exc()
+        sys.stderr.write(tb)
+        path = core.write_replay(pid, {'property': pid, 'kind': 'machinery',
+                                       'what': 'the check itself failed before reaching a verdict', 'traceback': tb[-3000:]})
+        print(f'VIOLATION property={pid} replay={path} no-failing-input-found')
+        return 1
 
 
 if __name__ == '__main__':
